@@ -11,6 +11,7 @@ From Coq Require Import Init.Byte.
 From FFS Require Import Base.Res Base.Bytes EthTypes.Model EthTypes.Spec EthTypes.SpecBig EthTypes.Proofs EthTypes.ProofsInt EthTypes.ProofsNum
   EthTypes.ProofsHex EthTypes.ProofsLimit EthTypes.ProofsBig EthTypes.ProofsBigInt EthTypes.ProofsBigCoh
   EthTypes.ProofsBigFloat EthTypes.ProofsBigAll.
+From FFS Require Import Base.Lit Base.Keccak EthTypes.ModelMarshal EthTypes.ProofsReferee.
 Import ListNotations.
 
 (* ---- 1. print form: "0x" + lower-case hex digits without leading zeros, value n (all n) ---- *)
@@ -376,3 +377,170 @@ Proof.
   pose proof (C19_float_text_exact g ltac:(vm_compute; reflexivity) ltac:(vm_compute; reflexivity)) as E.
   replace (big_limits_float g) with false in E by (vm_compute; reflexivity). exact E.
 Qed.
+
+(* ==== Answers to the referee report (design/reviews/C19.md; proofs in EthTypes/ProofsReferee.v) ==== *)
+
+(* ---- I3. signed hex texts, either prefix case: [hex_text neg up s] = ["-"] "0" ("x"|"X") s.  The text entry point
+   returns exactly (-)value; through the JSON layer (quoted: such a text is not a JSON number) the verdict is exact
+   for both types, without any guard.  Negative hex is therefore an error for HexInteger and HexUint64. ---- *)
+Theorem C19_signed_hex_exact : forall lex (ty64 neg up : bool) (s : bytes) (n : N),
+  lex_law lex -> hex_value s = Some n ->
+  let t := hex_text neg up s in
+  let q := hex_text_value neg n in
+  BigIntegerFromString t = Ok q /\
+  (in_range ty64 q = true -> parse_int ty64 lex (quote t) = Ok q) /\
+  (in_range ty64 q = false -> exists err, parse_int ty64 lex (quote t) = Err err).
+Proof. exact signed_hex_exact. Qed.
+Print Assumptions C19_signed_hex_exact.
+
+Theorem C19_negative_hex_rejected : forall lex (ty64 up : bool) (s : bytes) (n : N),
+  lex_law lex -> hex_value s = Some n -> n <> 0%N ->
+  exists err, parse_int ty64 lex (quote (hex_text true up s)) = Err err.
+Proof. exact negative_hex_rejected. Qed.
+Print Assumptions C19_negative_hex_rejected.
+
+(* ---- I4. the JSON layer of addresses / byte strings: a quoted plain text reaches SetString / hex.DecodeString
+   unchanged; bytes are returned only for a string that spells them, for EVERY lexer and document (no law); the
+   three rejection classes of the property stated explicitly ([bad_hex body]: odd number of characters, or a
+   character that is not a hex digit; body = the text after strings.TrimPrefix(s, "0x")); a well-spelled byte
+   string of any length other than 20 (19 and 21 included) is an error, with and without "0x". ---- *)
+Theorem C19_json_layer_unfold : forall lexs (s : bytes),
+  lexs_law lexs -> forallb plain_char s = true ->
+  Address_UnmarshalJSON lexs (quote s) = Address_SetString s /\
+  HexBytes_UnmarshalJSON lexs (quote s) = hex_decode (trim0x s).
+Proof. intros lexs s L P. split; [apply Address_UnmarshalJSON_quote|apply HexBytes_UnmarshalJSON_quote]; assumption. Qed.
+Print Assumptions C19_json_layer_unfold.
+
+Theorem C19_json_layer_inv : forall (lexs : bytes -> option bytes) (d b : bytes),
+  (Address_UnmarshalJSON lexs d = Ok b ->
+     exists s, lexs d = Some s /\ length b = 20%nat /\ (hex_spells s b \/ exists s', s = t_0x ++ s' /\ hex_spells s' b)) /\
+  (HexBytes_UnmarshalJSON lexs d = Ok b ->
+     exists s, lexs d = Some s /\ (hex_spells s b \/ exists s', s = t_0x ++ s' /\ hex_spells s' b)) /\
+  Address_UnmarshalJSON lexs d <> Panic /\ HexBytes_UnmarshalJSON lexs d <> Panic.
+Proof. exact json_layer_inv. Qed.
+Print Assumptions C19_json_layer_inv.
+
+Theorem C19_bad_hex_rejected : forall s : bytes,
+  bad_hex (trim0x s) -> (exists e, Address_SetString s = Err e) /\ (exists e, hex_decode (trim0x s) = Err e).
+Proof. intros s H. split; [apply address_rejects_bad_hex|apply hexbytes_rejects]; exact H. Qed.
+Print Assumptions C19_bad_hex_rejected.
+
+Theorem C19_address_wrong_length_rejected : forall (s b : bytes),
+  hex_spells s b -> length b <> 20%nat ->
+  (exists e, Address_SetString s = Err e) /\ (exists e, Address_SetString (t_0x ++ s) = Err e).
+Proof. exact address_rejects_wrong_length. Qed.
+Print Assumptions C19_address_wrong_length_rejected.
+
+Theorem C19_json_layer_rejects : forall lexs (s : bytes),
+  lexs_law lexs -> forallb plain_char s = true ->
+  (bad_hex (trim0x s) ->
+     (exists e, Address_UnmarshalJSON lexs (quote s) = Err e) /\ (exists e, HexBytes_UnmarshalJSON lexs (quote s) = Err e)) /\
+  (forall b, hex_spells s b -> length b <> 20%nat ->
+     (exists e, Address_UnmarshalJSON lexs (quote s) = Err e) /\ (exists e, Address_UnmarshalJSON lexs (quote (t_0x ++ s)) = Err e)).
+Proof. exact json_layer_rejects. Qed.
+Print Assumptions C19_json_layer_rejects.
+
+(* ---- I5. MarshalJSON of the five address / byte-string types (EthTypes/ModelMarshal.v: the String() text between
+   double quotes): documented forms, the checksum one is EIP-55, and Unmarshal (Marshal x) = x. ---- *)
+Theorem C19_marshal_forms : forall a : bytes,
+  Address0xHex_MarshalJSON a = quote (t_0x ++ lower_hex a) /\
+  AddressPlainHex_MarshalJSON a = quote (lower_hex a) /\
+  HexBytes0xPrefix_MarshalJSON a = quote (t_0x ++ lower_hex a) /\
+  HexBytesPlain_MarshalJSON a = quote (lower_hex a).
+Proof. exact marshal_forms. Qed.
+Print Assumptions C19_marshal_forms.
+
+Theorem C19_checksum_marshal_form : forall (H : bytes -> bytes), (forall x, length (H x) = 32%nat) ->
+  forall a : bytes, length a = 20%nat -> AddressWithChecksum_MarshalJSON H a = Ok (quote (eip55 H a)).
+Proof. exact checksum_marshal_form. Qed.
+Print Assumptions C19_checksum_marshal_form.
+
+Theorem C19_marshal_roundtrip : forall lexs (H : bytes -> bytes),
+  lexs_law lexs -> (forall x, length (H x) = 32%nat) ->
+  (forall h, HexBytes_UnmarshalJSON lexs (HexBytes0xPrefix_MarshalJSON h) = Ok h /\
+             HexBytes_UnmarshalJSON lexs (HexBytesPlain_MarshalJSON h) = Ok h) /\
+  (forall a, length a = 20%nat ->
+     Address_UnmarshalJSON lexs (Address0xHex_MarshalJSON a) = Ok a /\
+     Address_UnmarshalJSON lexs (AddressPlainHex_MarshalJSON a) = Ok a /\
+     exists j, AddressWithChecksum_MarshalJSON H a = Ok j /\ Address_UnmarshalJSON lexs j = Ok a).
+Proof. exact marshal_roundtrip. Qed.
+Print Assumptions C19_marshal_roundtrip.
+
+(* ---- I2. C19_eip55 instantiated with the executable Keccak-256 of Base/Keccak.v (the hash the evaluator uses);
+   that [keccak256] IS legacy Keccak-256 rests on its test vectors and on the differential run. ---- *)
+Theorem C19_eip55_keccak : forall a : bytes, length a = 20%nat ->
+  AddressWithChecksum_String keccak256 a = Ok (eip55 keccak256 a) /\ Address_SetString (eip55 keccak256 a) = Ok a /\
+  AddressWithChecksum_MarshalJSON keccak256 a = Ok (quote (eip55 keccak256 a)).
+Proof. exact eip55_keccak. Qed.
+Print Assumptions C19_eip55_keccak.
+
+(* ---- I6. negative HexInteger values (constructible with NewHexInteger64(-1); outside the property's
+   "non-negative"): the print form is "0x-.." and it does not parse back. ---- *)
+Theorem C19_hexint_negative_no_roundtrip : forall lex (p : positive),
+  lex_law lex ->
+  HexInteger_MarshalJSON (Z.neg p) = quote (t_0x ++ t_minus ++ text16 (N.pos p)) /\
+  exists err, HexInteger_UnmarshalJSON lex (HexInteger_MarshalJSON (Z.neg p)) = Err err.
+Proof. intros lex p L. split; [apply HexInteger_negative_print|apply HexInteger_negative_no_roundtrip; exact L]. Qed.
+Print Assumptions C19_hexint_negative_no_roundtrip.
+
+(* ---- non-vacuity of the answers ---- *)
+(* "-0x1f" and "-0X1F" are errors for both types, -31 at the text entry point; "0X1f" is 31; "-0x0" is 0 *)
+Example C19_nonvacuous_signed_hex :
+  hex_text true false (ascii_bytes "1f"%string) = ascii_bytes "-0x1f"%string /\
+  hex_value (ascii_bytes "1f"%string) = Some 31%N /\
+  BigIntegerFromString (ascii_bytes "-0x1f"%string) = Ok (-31)%Z /\
+  (forall ty64, exists err, parse_int ty64 simple_lexer (quote (ascii_bytes "-0x1f"%string)) = Err err) /\
+  (forall ty64, exists err, parse_int ty64 simple_lexer (quote (ascii_bytes "-0X1F"%string)) = Err err) /\
+  parse_int true simple_lexer (quote (ascii_bytes "0X1f"%string)) = Ok 31%Z /\
+  parse_int false simple_lexer (quote (ascii_bytes "-0x0"%string)) = Ok 0%Z.
+Proof.
+  split; [vm_compute; reflexivity|]. split; [vm_compute; reflexivity|]. split; [vm_compute; reflexivity|].
+  split; [intros ty64; exact (C19_negative_hex_rejected simple_lexer ty64 false (ascii_bytes "1f"%string) 31%N simple_lexer_law eq_refl ltac:(discriminate))|].
+  split; [intros ty64; exact (C19_negative_hex_rejected simple_lexer ty64 true (ascii_bytes "1F"%string) 31%N simple_lexer_law eq_refl ltac:(discriminate))|].
+  split; vm_compute; reflexivity.
+Qed.
+
+(* lexs_law is satisfiable; 19 / 21 bytes, an odd digit count and a non-hex character are errors through the JSON layer,
+   a 20-byte text is accepted; the hypotheses of the rejection theorems hold for these texts *)
+Example C19_nonvacuous_json_layer :
+  let t19 := repeat x61 38 in let t20 := repeat x61 40 in let t21 := repeat x61 42 in
+  let todd := repeat x61 39 in let tg := repeat x61 39 ++ [x67] in
+  lexs_law plain_string /\
+  Address_UnmarshalJSON plain_string (quote t20) = Ok (repeat xaa 20) /\
+  (exists e, Address_UnmarshalJSON plain_string (quote t19) = Err e) /\
+  (exists e, Address_UnmarshalJSON plain_string (quote (t_0x ++ t21)) = Err e) /\
+  (exists e, Address_UnmarshalJSON plain_string (quote todd) = Err e) /\
+  (exists e, Address_UnmarshalJSON plain_string (quote tg) = Err e) /\
+  (exists e, HexBytes_UnmarshalJSON plain_string (quote tg) = Err e) /\
+  hex_spells t19 (repeat xaa 19) /\ bad_hex (trim0x todd) /\ bad_hex (trim0x tg).
+Proof.
+  cbv zeta. split; [exact plain_string_law|]. split; [vm_compute; reflexivity|].
+  do 5 (split; [vm_compute; eauto|]).
+  split; [vm_compute; repeat split; exists 10%N, 10%N; repeat split|].
+  split; [left; vm_compute; reflexivity|].
+  right. exists x67. split; [vm_compute; tauto|vm_compute; reflexivity].
+Qed.
+
+(* I1: the model CAN panic - the checksum loop indexes into the hash text, so with a hash shorter than 20 bytes the
+   model's String() / MarshalJSON panic (as hexHash[i] would in Go).  [= Ok] in C19_eip55 is therefore a real
+   statement; the integer and byte-string parsers on the other hand contain no partial operation (as in the Go
+   code: math/big, encoding/hex, encoding/json calls only), so their [<> Panic] statements hold by construction. *)
+Example C19_nonvacuous_model_can_panic :
+  AddressWithChecksum_String (fun _ => []) (repeat xab 20) = Panic /\
+  AddressWithChecksum_MarshalJSON (fun _ => repeat xf0 19) (repeat xab 20) = Panic.
+Proof. split; vm_compute; reflexivity. Qed.
+
+(* I2: the first test vector of EIP-55 with the executable Keccak-256 *)
+Example C19_nonvacuous_eip55_keccak :
+  AddressWithChecksum_String keccak256 (unhex "5aaeb6053f3e94c9b9a09f33669435e7ef1beaed") =
+    Ok (ascii_bytes "0x5aAeb6053F3E94C9b9A09f33669435E7Ef1BeAed"%string) /\
+  eip55 keccak256 (unhex "fb6916095ca1df60bb79ce92ce3ea74c37c5d359") = ascii_bytes "0xfB6916095ca1df60bB79Ce92cE3Ea74c37c5d359"%string.
+Proof. split; vm_compute; reflexivity. Qed.
+
+Example C19_nonvacuous_marshal :
+  Address0xHex_MarshalJSON (repeat xab 20) = quote (ascii_bytes "0xabababababababababababababababababababab"%string) /\
+  HexBytesPlain_MarshalJSON [x01; xfe] = quote (ascii_bytes "01fe"%string) /\
+  HexBytes_UnmarshalJSON plain_string (HexBytes0xPrefix_MarshalJSON []) = Ok [] /\
+  HexInteger_MarshalJSON (-1) = quote (ascii_bytes "0x-1"%string) /\
+  (exists err, HexInteger_UnmarshalJSON simple_lexer (HexInteger_MarshalJSON (-1)) = Err err).
+Proof. repeat (split; [vm_compute; reflexivity|]). vm_compute. eauto. Qed.
